@@ -26,7 +26,8 @@ class Hooks:
     Stop = Stop
     Break = loopcut.Break
 
-    def __init__(self, w, sensors, names):
+    def __init__(self, w, sensors, names, func=None):
+        self.func = func
         self.w = w
         self.sensors = sensors
         self.names = names
@@ -47,13 +48,22 @@ class Hooks:
                 ("times_result_increasing", z3.Or(tr_empty, tr_last < self._time(ii)))]
 
     def _state(self, L):
-        return (L["integrator"].ii, _z(L["measurement_time_index"]).v, _z(L["increments_index"]).v)
+        r = self.roles
+        return (L[r["integrator"]].ii, _z(L[r["mi"]]).v, _z(L[r["xi"]]).v)
 
     def head(self, which, L):
         w, c = self.w, self.w.c
         self.reached.append(which)
         if which == "init":
-            self.bag = L["measurement_times"]
+            self.roles = sched.discover_roles(self.func, L)
+            r = self.roles
+            okr = all(r[k] for k in ("bag", "integrator", "mi", "xi")) and len(r["lists"]) >= 1 and len(r["models"]) == 2
+            c.prove("guard.roles_identified", z3.BoolVal(bool(okr)),
+                    "loop variables identified by role: measurement array %s, its cursor %s, increments cursor %s, integrator %s, result lists %s, logs %s"
+                    % (r["bag"], r["mi"], r["xi"], r["integrator"], r["lists"], r["dicts"]))
+            if not okr:
+                raise Concretization("cannot identify the loop variables by role: %s" % {k: r[k] for k in ("bag", "integrator", "mi", "xi", "lists")})
+            self.bag = L[r["bag"]]
             ok_bag = isinstance(self.bag, sched.Bag) and self.bag.sentinel and self.bag.sorted and self.bag.unique
             c.prove("prologue.M.shape", z3.BoolVal(bool(ok_bag)), "measurement_times is sorted, unique, clipped and ends with the +inf sentinel")
             if isinstance(self.bag, sched.Bag):
@@ -70,15 +80,16 @@ class Hooks:
             ii, mi, xi = self._state(L)
             for nm, f in self._inv_parts(ii, mi, xi, z3.BoolVal(True), z3.RealVal(0)):
                 c.prove("loop.init." + nm, f, "invariant holds on loop entry", concretize=w.concretize)
-            models = (L["gyro_model"], L["accel_model"])
+            models = tuple(L[k] for k in self.roles["models"])
             for m in models:
                 ok = isinstance(m, sched.ModelStub) and m.events[:1] == ["reset"]
                 c.prove("prologue.models_reset_before_use", z3.BoolVal(bool(ok)), "reset_estimates is the first call on each sensor model (%s)" % (getattr(m, "events", None),))
         elif which == "preserved":
             ii0, mi0, xi0, time0, tr_empty, tr_last = self.pre
             ii1, mi1, xi1 = self._state(L)
-            A = L["times_result"]
-            others = [len(L[k]) for k in ("gyro_result", "accel_result", "P_result")]
+            tl, oth = sched.times_list(L, self.roles)
+            A = L[tl] if tl else []
+            others = [len(L[k]) for k in self.roles["lists"] if k != tl]
             c.prove("loop.results.same_length", z3.BoolVal(all(o == len(A) for o in others) and len(A) <= 1),
                     "times/gyro/accel/P results appended together, at most once per iteration (%d, %s)" % (len(A), others))
             if len(A) >= 1:
@@ -104,8 +115,11 @@ class Hooks:
                     "measurement cursor advances by exactly one iff a stamp was processed", concretize=w.concretize)
             for s in self.sensors:
                 nm = s.__class__.__name__
-                rows_t = L["innovations_times"][nm]
-                rows = L["innovations"][nm]
+                td, od = sched.innovation_logs(L, self.roles)
+                rows_t = L[td][nm] if td else []
+                rows = L[od][nm] if od else ([] if not rows_t else None)
+                if rows is None:
+                    rows = []
                 want = [t for (t, p) in s.calls if p]
                 # two sensor objects of one class share a log: count over the class
                 same_cls = [x for x in self.sensors if x.__class__.__name__ == nm]
@@ -132,17 +146,22 @@ class Hooks:
             c.assume(f, "Inv." + nm)
         r, _ = c.check()
         c.prove("guard.invariant_satisfiable", z3.BoolVal(r == z3.sat), "the assumed invariant is satisfiable (vacuity guard)")
-        L["integrator"].ii = ii
-        L["integrator"].calls = []
-        for k in ("times_result", "gyro_result", "accel_result", "P_result"):
+        r = self.roles
+        L[r["integrator"]].ii = ii
+        L[r["integrator"]].calls = []
+        for k in r["lists"]:
             del L[k][:]
-        for d in (L["innovations"], L["innovations_times"]):
-            for key in d:
-                del d[key][:]
+        for dn in r["dicts"]:
+            for key in L[dn]:
+                del L[dn][key][:]
         for s in self.sensors:
             s.calls = []
         self.pre = (ii, mi, xi, self._time(ii), tr_empty, tr_last)
-        return dict(measurement_time_index=ZSym(mi), increments_index=ZSym(xi), P=OPAQUE)
+        out = {r["mi"]: ZSym(mi), r["xi"]: ZSym(xi)}
+        for k in r["stored"]:
+            if L.get(k) is OPAQUE and k not in out:
+                out[k] = OPAQUE          # loop-carried numeric payload stays opaque
+        return out
 
 
 def build(py):
@@ -169,7 +188,7 @@ def scenario(py, code, mode, results):
     else:
         sensors = []
     meas_arg = None if mode == "none" else list(sensors)
-    hooks = Hooks(w, sensors, [s.__class__.__name__ for s in sensors])
+    hooks = Hooks(w, sensors, [s.__class__.__name__ for s in sensors], func=F.run_feedback_filter)
     cap = sched.BunchCapture()
     gm, am = sched.ModelStub(w, "gyro"), sched.ModelStub(w, "accel")
 
